@@ -146,3 +146,15 @@ Proof.
   destruct (sorted_docs s) as [docs| |]; cbn [bind] in *; try discriminate.
   inversion H; subst. rewrite listing_loop_full. now rewrite listing_loop_slice.
 Qed.
+
+(* the same about the listing operation itself: asking for page 0, 1, 2, ... with one positive limit and concatenating
+   the answers gives the full filtered listing *)
+Theorem listing_pages_cover : forall s flt lim n full, listing s flt 0 0 = Ok full -> 0 < lim ->
+  (length full <= n * N.to_nat lim)%nat ->
+  concat (map (fun i => match listing s flt (N.of_nat i * lim) lim with Ok p => p | _ => [] end) (seq 0 n)) = full.
+Proof.
+  intros s flt lim n full Hf Hl Hn.
+  rewrite (map_ext _ (fun i => slice (N.of_nat i * lim) lim full)).
+  - apply pages_cover; assumption.
+  - intros i. rewrite (listing_page s flt (N.of_nat i * lim) lim full Hf). reflexivity.
+Qed.
